@@ -6,7 +6,7 @@
    schedule (so: every interleaving, every instant of a kill, every failure mode). *)
 From Coq Require Import List Arith Lia Bool PeanoNat String.
 Import ListNotations.
-From SP Require Import Skel Gen Expected Result TaskFS TInv TPres Glue Cor TaskTop.
+From SP Require Import Skel Gen Expected ExpectedCones Result TaskFS TInv TPres Glue Cor TaskTop.
 From SP Require FailWindow.
 
 (* T1: order of phases in Task.Execute and FinalizePaths; every failure exits the process; FileIP.Write goes beneath the temp dir *)
@@ -100,6 +100,25 @@ Theorem C01_returning_fail_refuted :
     /\ FailWindow.gone w = true /\ sem (tk FailWindow.r_cfg 1) [] = None /\ fin (FailWindow.base w) 1 = Some 77.
 Proof. exact FailWindow.returning_fail_refuted. Qed.
 
+(* T1, call cones: every function of scipipe that the functions above can reach (calls and function values, interface calls
+   resolved to every implementation) is one the models were compared with -- a helper that is new to the cone, or a new call
+   of an old one, changes a list (the lists are regenerated from /repo on every run; ExpectedCones.v holds the accepted ones) *)
+Theorem C01_cone_conforms :
+  strs_eqb cone_Task_Execute exp_cone_Task_Execute
+  && strs_eqb cone_FinalizePaths exp_cone_FinalizePaths
+  && strs_eqb cone_Task_finalizePaths exp_cone_Task_finalizePaths
+  && strs_eqb cone_Task_tempDirsExist exp_cone_Task_tempDirsExist
+  && strs_eqb cone_Task_anyOutputsExist exp_cone_Task_anyOutputsExist
+  && strs_eqb cone_Task_createDirs exp_cone_Task_createDirs
+  && strs_eqb cone_Task_executeCommand exp_cone_Task_executeCommand
+  && strs_eqb cone_Task_ensureAllOutputsExist exp_cone_Task_ensureAllOutputsExist
+  && strs_eqb cone_FileIP_Write exp_cone_FileIP_Write
+  && strs_eqb cone_NewTask exp_cone_NewTask
+  && strs_eqb cone_Fail exp_cone_Fail
+  && strs_eqb cone_Failf exp_cone_Failf
+  && strs_eqb cone_CheckWithMsg exp_cone_CheckWithMsg = true.
+Proof. vm_compute. reflexivity. Qed.
+
 Print Assumptions C01_code_conforms.
 Print Assumptions C01_order_facts.
 Print Assumptions C01_atomic.
@@ -110,3 +129,4 @@ Print Assumptions C01_window_atomic.
 Print Assumptions C01_window_failed_leaves_nothing.
 Print Assumptions C01_window_nonvacuous.
 Print Assumptions C01_returning_fail_refuted.
+Print Assumptions C01_cone_conforms.
